@@ -151,3 +151,48 @@ M['C10'] = [
     dict(id='c10-benign-size-ternary', kind='benign', edits=[
         ('include/cstl/_string.h', '    size_t sz = cstl_vector_size(&s->v);\n    if (sz > 0) {\n        sz--;\n    }\n    return sz;', '    const size_t sz = cstl_vector_size(&s->v);\n    return (sz > 0) ? sz - 1 : 0;')]),
 ]
+
+# ------------------------------------------------------------------------------------------- C14
+M['C14'] = [
+    dict(id='c14-revert-alloc-view-reset', kind='fault', rule='A1', edits=[
+        ('src/array.c', '    cstl_array_reset(a);\n    if (sz != 0', '    cstl_shared_ptr_reset(&a->ptr);\n    if (sz != 0')]),
+    dict(id='c14-alloc-resets-len-only', kind='fault', rule='A1', edits=[
+        ('src/array.c', '    cstl_array_reset(a);\n    if (sz != 0', '    cstl_shared_ptr_reset(&a->ptr);\n    a->len = 0;\n    if (sz != 0')]),
+    dict(id='c14-revert-alloc-size-check', kind='fault', rule='A2', edits=[
+        ('src/array.c', '    if (sz != 0 && nm > (SIZE_MAX - sizeof(*ra)) / sz) {\n        /* the number of bytes can\'t be represented */\n        return;\n    }\n', '')]),
+    dict(id='c14-alloc-size-check-forgets-header', kind='fault', rule='A2', accept_undecided=True, edits=[
+        ('src/array.c', 'nm > (SIZE_MAX - sizeof(*ra)) / sz) {', 'nm > SIZE_MAX / sz) {')]),
+    dict(id='c14-revert-slice-check', kind='fault', rule='A3', edits=[
+        ('src/array.c', '        || end > ra->nm\n        || a->off > ra->nm - end) {', '        || a->off + end > ra->nm) {')]),
+    dict(id='c14-slice-check-ignores-offset', kind='fault', rule='A3', edits=[
+        ('src/array.c', '        || end > ra->nm\n        || a->off > ra->nm - end) {', '        || end > ra->nm) {')]),
+    dict(id='c14-slice-no-order-check', kind='fault', rule='A3', edits=[
+        ('src/array.c', '    if (ra == NULL\n        || end < beg\n        || end > ra->nm', '    if (ra == NULL\n        || end > ra->nm')]),
+    dict(id='c14-slice-stores-before-guard', kind='fault', rule='A3', edits=[
+        ('src/array.c', '    const struct cstl_raw_array * const ra =\n        cstl_shared_ptr_get_const(&a->ptr);\n\n    if (ra == NULL\n        || end < beg',
+         '    const struct cstl_raw_array * const ra =\n        cstl_shared_ptr_get_const(&a->ptr);\n\n    if (a == s) {\n        s->len = end - beg;\n    }\n    if (ra == NULL\n        || end < beg')]),
+    dict(id='c14-at-without-offset', kind='fault', rule='A4', edits=[
+        ('src/array.c', 'return __cstl_raw_array_at(ra->buf, ra->sz, a->off + i);', 'return __cstl_raw_array_at(ra->buf, ra->sz, i);')]),
+    dict(id='c14-at-off-by-one', kind='fault', rule='A4', edits=[
+        ('src/array.c', '    if (i >= a->len) {\n        abort();\n    } else {', '    if (i > a->len) {\n        abort();\n    } else {')]),
+    dict(id='c14-release-without-unique', kind='fault', rule='A5', edits=[
+        ('src/array.c', '        && ra->buf != ra + 1\n        && cstl_shared_ptr_unique(&a->ptr)) {', '        && ra->buf != ra + 1) {')]),
+    dict(id='c14-release-internal-buffer', kind='fault', rule='A5', edits=[
+        ('src/array.c', '    if (ra != NULL\n        && ra->buf != ra + 1\n        && cstl_shared_ptr_unique(&a->ptr)) {', '    if (ra != NULL\n        && cstl_shared_ptr_unique(&a->ptr)) {')]),
+    dict(id='c14-release-keeps-reference', kind='fault', rule='A5', edits=[
+        ('src/array.c', '        b = ra->buf;\n        cstl_array_reset(a);', '        b = ra->buf;')]),
+    dict(id='c14-release-resets-always', kind='fault', rule='A5', edits=[
+        ('src/array.c', '        b = ra->buf;\n        cstl_array_reset(a);\n    }\n', '        b = ra->buf;\n    }\n    cstl_array_reset(a);\n')]),
+    dict(id='c14-slice-shares-into-itself', kind='fault', rule='A6', edits=[
+        ('src/array.c', '    s->len = end - beg;\n    if (a != s) {\n        cstl_shared_ptr_share(&a->ptr, &s->ptr);\n    }', '    s->len = end - beg;\n    cstl_shared_ptr_share(&a->ptr, &s->ptr);')]),
+    dict(id='c14-benign-slice-check-reordered', kind='benign', edits=[
+        ('src/array.c', '    if (ra == NULL\n        || end < beg\n        || end > ra->nm\n        || a->off > ra->nm - end) {\n        abort();\n    }',
+         '    if (ra == NULL) {\n        abort();\n    }\n    if (beg > end || end > ra->nm) {\n        abort();\n    }\n    if (ra->nm - end < a->off) {\n        abort();\n    }')]),
+    dict(id='c14-benign-alloc-explicit-fields', kind='benign', edits=[
+        ('src/array.c', '    cstl_array_reset(a);\n    if (sz != 0', '    cstl_shared_ptr_reset(&a->ptr);\n    a->off = 0;\n    a->len = 0;\n    if (sz != 0')]),
+    dict(id='c14-benign-at-restructured', kind='benign', edits=[
+        ('src/array.c', '    if (i >= a->len) {\n        abort();\n    } else {\n        const struct cstl_raw_array * const ra =\n            cstl_shared_ptr_get_const(&a->ptr);\n\n        return __cstl_raw_array_at(ra->buf, ra->sz, a->off + i);\n    }',
+         '    const struct cstl_raw_array * ra;\n    if (!(i < a->len)) {\n        abort();\n    }\n    ra = cstl_shared_ptr_get_const(&a->ptr);\n    return __cstl_raw_array_at(ra->buf, ra->sz, i + a->off);')]),
+    dict(id='c14-benign-alloc-mul-overflow-form', kind='benign', edits=[
+        ('src/array.c', '    if (sz != 0 && nm > (SIZE_MAX - sizeof(*ra)) / sz) {', '    if (sz > 0 && (SIZE_MAX - sizeof(*ra)) / sz < nm) {')]),
+]
